@@ -1,23 +1,203 @@
-(* C23 — zone files parse to exactly the records they describe: the PROVED part.
-   The whole-line / whole-file theorem parse (render choices records) = records of DESIGN.md is
-   not proved; checks/c23.py checks it differentially against an independent renderer (docs/C23.md). *)
-From QV Require Import Model.ZfStd Proofs.ZfFieldsP.
+(* C23 — zone files parse to exactly the records they describe.
+   Spec/ZfRenderS.v is an independent renderer: abstract lines (records, $ORIGIN, $TTL, blank/comment lines)
+   plus a `choices` value per line fixing the presentation completely ($INCLUDE lines too: they are reported); [file_ok] says when the choices are
+   legal, [render] gives the octets, [number_lines] the denoted records with their line numbers.
+   The theorems go bottom-up (tokens, field navigation, one line, whole files); every proof is
+   [exact <lemma>].  [runs T m s b b' v] (Proofs/ZfRunP.v) reads: on ANY reader state whose unconsumed input
+   is s ++ t with T t, parenthesis state b, the parser action m returns v, consumes exactly s, ends in
+   parenthesis state b' and has advanced the line counter by the number of LF octets in s.
+   Not covered by the renderer (docs/C23.md): the embedded-IPv4 form of IPv6 text, a raw CR inside an unquoted
+   token.  The WKS bit map uses the implementation's bit order (finding 3). *)
+From QV Require Import Base.ListX Model.NameWire Spec.NameRepr Model.ZfStd Model.ZfReader Model.ZfParser Model.ZfRecOnly
+  Spec.ZfValidS Spec.ZfRenderS Proofs.ZfReaderP Proofs.ZfFieldsP Proofs.ZfRunP Proofs.ZfTokP Proofs.ZfNameRP Proofs.ZfSymP
+  Proofs.ZfAddrP Proofs.ZfRecRP Proofs.ZfLineRP.
 
-(* The disjointness behind parse_ttl_and_class (RFC 1035 section 5.1): no token is both a TTL and a
-   CLASS or a TYPE, and no token is both a CLASS and a TYPE — for the mnemonic tables as they are in
-   the source (regenerated on every run), with case-sensitive or case-insensitive matching. Hence
-   "try TTL, then CLASS, then TYPE" reads every field the only way it can be read. *)
-Theorem c23_fields_partial : forall s,
+Local Open Scope N_scope.
+
+(* ---- the reading order of TTL / CLASS / TYPE is unambiguous (RFC 1035 section 5.1) --------------------------------- *)
+
+(* no token is both a TTL and a CLASS or a TYPE, and no token is both a CLASS and a TYPE — for the mnemonic
+   tables as they are in the source (regenerated on every run) *)
+Theorem c23_fields_disjoint : forall s,
   (forall v, parse_uint U32_MAX s = inl v ->
      (forall c, class_from_str s <> inl c) /\ (forall t, type_from_str s <> inl t)) /\
   (forall c, class_from_str s = inl c -> forall t, type_from_str s <> inl t).
 Proof. exact fields_disjoint. Qed.
 
-(* Non-vacuity: the three languages are inhabited. *)
-Example c23_example :
-  parse_uint U32_MAX [51; 54; 48; 48]%N = inl 3600%N /\
-  class_from_str [73; 78]%N = inl 1%N /\ class_from_str [67; 76; 65; 83; 83; 52]%N = inl 4%N /\
-  type_from_str [65; 65; 65; 65]%N = inl 28%N /\ type_from_str [84; 89; 80; 69; 57; 57]%N = inl 99%N.
-Proof. vm_compute. repeat split. Qed.
+(* ---- stage 1: tokens --------------------------------------------------------------------------------------------------- *)
 
-Print Assumptions c23_fields_partial.
+(* \c and \DDD: after the backslash, parse_escape gives the octet back *)
+Theorem c23_escape : forall k e c b, e <> ERaw -> esc_ok k e c = true ->
+  runs anyt parse_escape (tl (render_octet e c)) b b c.
+Proof. exact escape_runs. Qed.
+
+(* <character-string>, quoted or not, every octet raw / \c / \DDD as chosen: the string comes back; after a
+   closing quote anything may follow, an unquoted string must be followed by a field end *)
+Theorem c23_character_string : forall first sc s b, string_ok first sc s = true ->
+  runs (ftail (string_closed sc)) parse_character_string (render_string sc s) b b s.
+Proof. exact string_runs. Qed.
+
+(* <domain-name>: absolute with any escapes, relative to the origin, "@", "." — the value is the
+   representation of the label list *)
+Theorem c23_name : forall first bol origin nc ls b, name_ok first bol origin nc ls = true -> origin_good origin ->
+  runs fend (parse_name (option_map name_of origin)) (render_name nc ls) b b (name_of ls).
+Proof. exact name_runs. Qed.
+
+(* u8/u16/u32 in decimal with an optional '+' and leading zeros *)
+Theorem c23_uint : forall max ic n, uint_ok max ic n = true -> parse_uint max (render_uint ic n) = inl n.
+Proof. exact uint_roundtrip. Qed.
+
+(* CLASS and TYPE: mnemonics in any letter case, CLASSnnn / TYPEnnn *)
+Theorem c23_class : forall sc v, sym_ok spec_classes sc v = true -> class_from_str (render_class sc v) = inl v.
+Proof. exact class_roundtrip. Qed.
+Theorem c23_type : forall sc v, sym_ok spec_types sc v = true -> type_from_str (render_type sc v) = inl v.
+Proof. exact type_roundtrip. Qed.
+
+(* A and AAAA text through the models of Ipv4Addr::from_str / Ipv6Addr::from_str; the AAAA renderer writes eight
+   groups (dropped leading zeros and letter case per group), any one run of zero groups possibly as "::" *)
+Theorem c23_ipv4 : forall a b c d, ip4_ok a b c d = true -> ipv4_from_str (render_ip4 a b c d) = Some [a; b; c; d].
+Proof. exact ipv4_roundtrip. Qed.
+Theorem c23_ipv6 : forall c gs, ip6_ok c gs = true -> ipv6_from_str (render_ip6 c gs) = Some (flat_map sbe16 gs).
+Proof. exact ipv6_roundtrip. Qed.
+
+(* ---- stage 2: field navigation ----------------------------------------------------------------------------------------------- *)
+
+(* over any legal separator (blanks, tabs, parentheses, and inside them comments and LF / CRLF line breaks)
+   skip_to_next_field lands exactly on the first octet of the next field, with the right parenthesis state
+   and line count *)
+Theorem c23_navigation : forall k s p p', sep_paren p s = Some p' ->
+  runs fstart (skip_to_next_field k) (render_sep s) p p' tt.
+Proof. exact skip_to_next_field_runs. Qed.
+
+(* ... and expect_eol consumes a legal line end (separator closing the parentheses, comment, LF / CRLF / EOF) *)
+Theorem c23_line_end : forall e p, eol_ok p e = true ->
+  runs (eoft (e_term e)) expect_eol (render_eol e) p false tt.
+Proof. exact expect_eol_runs. Qed.
+
+(* ---- stage 3: RDATA and one record line ------------------------------------------------------------------------------------------- *)
+
+(* parse_rdata on the rendered RDATA of every type with a syntax of its own (NS MD MF CNAME MB MG MR PTR,
+   A, CH A, SOA, WKS, HINFO, MINFO, MX, TXT, AAAA, SRV — all the parser has) in that syntax or in the RFC 3597
+   \# form, and of every other type in the \# form (hexadecimal data split into words at will) *)
+Theorem c23_rdata : forall x class type dc d e p p3, sctx_good x ->
+  rdata_ok (x_origin x) p class type dc d = Some p3 -> eol_ok p3 e = true ->
+  runs (eoft (e_term e)) (parse_rdata (ctx_of x) class type) (render_rdata dc d ++ render_eol e) p false (rdata_wire d).
+Proof. exact rdata_runs. Qed.
+
+(* a record line, whatever the owner form (absolute, relative, @, omitted), TTL / class presence and order,
+   separators, comments, parentheses: the parser yields the record with the number of the line it starts on
+   and updates previous owner / TTL / class *)
+Theorem c23_record_line : forall x rc r t rd0, sctx_good x -> record_ok x rc r = true ->
+  r_rest rd0 = render_record rc r ++ t -> r_paren rd0 = false -> wfr rd0 -> eoft (e_term (rc_end rc)) t ->
+  exists rd1, parse_line (ctx_of x) rd0 = Ok ((Some (item_of (p_line (r_pos rd0)) r), ctx_of (after_record x r)), rd1) /\
+              post rd0 rd1 (render_record rc r) t false.
+Proof. exact record_line_parses. Qed.
+
+(* any line: records, blank / comment lines, $ORIGIN, $TTL, $INCLUDE file [origin] (directive names in any
+   letter case, file names quoted or not with any escapes): what is yielded ([line_item]: the record, or the
+   $INCLUDE with the origin to use) and the new context *)
+Theorem c23_line : forall x l t rd0, sctx_good x -> line_ok x l = true ->
+  r_rest rd0 = render_line l ++ t -> r_paren rd0 = false -> wfr rd0 -> eoft (e_term (line_end l)) t ->
+  exists rd1, parse_line (ctx_of x) rd0 =
+                Ok ((option_map (line_of (p_line (r_pos rd0))) (line_item x l), ctx_of (after_line x l)), rd1) /\
+              post rd0 rd1 (render_line l) t false.
+Proof. exact line_parses. Qed.
+
+(* ---- stage 4: whole files ----------------------------------------------------------------------------------------------------------- *)
+
+(* every rendered file parses to exactly the records (and $INCLUDE directives) it denotes, in order, each with
+   the number of the line it starts on (1 + the LF octets before it), and to nothing else (no error item) *)
+Theorem c23_file_roundtrip : forall ls, file_ok sctx0 ls = true ->
+  exists p, parse_all (render ls) = Ok (items_of (number_lines ls), p).
+Proof. exact file_roundtrip. Qed.
+
+(* the same through Parser::records_only(), the iterator the zone loader consumes (model: Model/ZfRecOnly.v, C24):
+   a rendered file without $INCLUDE lines yields exactly its records *)
+Theorem c23_file_roundtrip_records_only : forall ls, file_ok sctx0 ls = true -> no_include ls ->
+  exists p, ro_all (render ls) = Ok (records_of (number_lines ls), p).
+Proof. exact file_roundtrip_records_only. Qed.
+
+(* ---- non-vacuity ----------------------------------------------------------------------------------------------------------------------- *)
+
+Definition sp : sep := mkSep [] [32].
+Definition eol_lf : eolc := mkEol sep_none (TNl false).
+Definition raws : list esc := repeat ERaw 12.
+Definition l_example : label := [101;120;97;109;112;108;101].
+Definition l_ns : label := [110;115].
+Definition l_host : label := [104;111;115;116;109;97;115;116;101;114].
+Definition l_www : label := [119;119;119].
+
+(* $ORIGIN example.
+   $ttl<TAB>3600 ; d
+   @ IN SOA ns hostmaster ( 1
+    7200 +3600 ; c
+    01209600 300 )
+    txt "a b"x\059y
+   ; x
+   www 300 iN A 192.0.2.1<CRLF>
+   $iNCLUDE <quote>a\<quote>b<quote> ns
+   www.ex\097mple. CLASS1 tYPE99 \# 3 0102 ab<end of file> *)
+Definition ex_lines : list aline :=
+  [ LOrigin [] sp (NAbs [raws]) [l_example] eol_lf;
+    LTtl [false; true; true; true] (mkSep [] [9]) i_plain 3600 (mkEol sp (TComment [32;100] false));
+    LRecord (mkRc sep_none (Some (NAt, sp)) (TcC (SymMnemonic []) sp) (SymMnemonic [])
+               (DFields [(sp, CName (NRel 1 [raws])); (sp, CName (NRel 1 [raws]));
+                         (mkSep [([32], SOpen)] [32], CInt i_plain);
+                         (mkSep [([32], SNl false)] [32], CInt i_plain); (sp, CInt (mkI true 0));
+                         (mkSep [([32], SComment [32;99] false)] [32], CInt (mkI false 1)); (sp, CInt i_plain)])
+               (mkEol (mkSep [([32], SClose)] []) (TNl false)))
+            (mkArec [l_example] 3600 1 6
+               (AFields [VName [l_ns; l_example]; VName [l_host; l_example]; VU32 1; VU32 7200; VU32 3600; VU32 1209600; VU32 300]));
+    LRecord (mkRc sp None TcNone (SymMnemonic [true; true; true])
+               (DFields [(sp, CStr (SQuoted [ERaw; ERaw; ERaw])); (sep_none, CStr (SUnquoted [ERaw; EDec; ERaw]))])
+               eol_lf)
+            (mkArec [l_example] 3600 1 16 (AFields [VStr [97;32;98]; VStr [120;59;121]]));
+    LBlank (mkEol sep_none (TComment [32;120] false));
+    LRecord (mkRc sep_none (Some (NRel 1 [raws], sp)) (TcTC 300 i_plain sp (SymMnemonic [true]) sp) (SymMnemonic [])
+               (DFields [(sp, CPlain)]) (mkEol sep_none (TNl true)))
+            (mkArec [l_www; l_example] 300 1 1 (AFields [VIp4 192 0 2 1]));
+    LInclude [true; true] sp (SQuoted [ERaw; EChar; ERaw]) [97; 34; 98] (Some (sp, NRel 1 [raws], [l_ns; l_example])) eol_lf;
+    LRecord (mkRc sep_none (Some (NAbs [raws; [ERaw; ERaw; EDec; ERaw; ERaw; ERaw; ERaw]], sp)) (TcC (SymNumeric [] i_plain) sp) (SymNumeric [true] i_plain)
+               (DGeneric sp sp i_plain [(Some sp, false, true); (None, false, false); (Some sp, false, false)])
+               (mkEol sep_none TEof))
+            (mkArec [l_www; l_example] 3600 1 99 (AGeneric [1; 2; 171])) ].
+
+Example c23_example_ok : file_ok sctx0 ex_lines = true.
+Proof. vm_compute. reflexivity. Qed.
+
+Example c23_example_text : render ex_lines =
+  [36;79;82;73;71;73;78;32;101;120;97;109;112;108;101;46;10;
+   36;116;116;108;9;51;54;48;48;32;59;32;100;10;
+   64;32;73;78;32;83;79;65;32;110;115;32;104;111;115;116;109;97;115;116;101;114;32;40;32;49;32;10;
+   32;55;50;48;48;32;43;51;54;48;48;32;59;32;99;10;
+   32;48;49;50;48;57;54;48;48;32;51;48;48;32;41;10;
+   32;116;120;116;32;34;97;32;98;34;120;92;48;53;57;121;10;
+   59;32;120;10;
+   119;119;119;32;51;48;48;32;105;78;32;65;32;49;57;50;46;48;46;50;46;49;13;10;
+   36;105;78;67;76;85;68;69;32;34;97;92;34;98;34;32;110;115;10;
+   119;119;119;46;101;120;92;48;57;55;109;112;108;101;46;32;67;76;65;83;83;49;32;116;89;80;69;57;57;32;92;35;32;51;32;48;49;48;50;32;97;98].
+Proof. vm_compute. reflexivity. Qed.
+
+Example c23_example_lines : map fst (number_lines ex_lines) = [3; 6; 8; 9; 10].
+Proof. vm_compute. reflexivity. Qed.
+
+(* the instance of the file theorem: records at lines 3, 6, 8 and 10, an $INCLUDE at line 9 *)
+Example c23_example_parse : exists p, parse_all (render ex_lines) = Ok (items_of (number_lines ex_lines), p).
+Proof. exact (c23_file_roundtrip ex_lines c23_example_ok). Qed.
+
+Print Assumptions c23_fields_disjoint.
+Print Assumptions c23_escape.
+Print Assumptions c23_character_string.
+Print Assumptions c23_name.
+Print Assumptions c23_uint.
+Print Assumptions c23_class.
+Print Assumptions c23_type.
+Print Assumptions c23_ipv4.
+Print Assumptions c23_ipv6.
+Print Assumptions c23_navigation.
+Print Assumptions c23_line_end.
+Print Assumptions c23_rdata.
+Print Assumptions c23_record_line.
+Print Assumptions c23_line.
+Print Assumptions c23_file_roundtrip.
+Print Assumptions c23_file_roundtrip_records_only.
